@@ -1348,8 +1348,13 @@ impl Server {
         // Log to AOF for write commands
         if let Some(aof) = &self.aof_engine {
             if self.is_write_command(&command_name) {
-                if let Err(e) = aof.append_command(parts, db) {
-                    eprintln!("Failed to append to AOF: {}", e);
+                // The script cache is not persistent: EVALSHA is logged as the EVAL of the script
+                // it names (a hash that names none runs nothing, and nothing is logged)
+                let as_eval = if command_name == "EVALSHA" { self.evalsha_as_eval(parts) } else { None };
+                if command_name != "EVALSHA" || as_eval.is_some() {
+                    if let Err(e) = aof.append_command(as_eval.as_deref().unwrap_or(parts), db) {
+                        eprintln!("Failed to append to AOF: {}", e);
+                    }
                 }
             }
         }
@@ -3454,6 +3459,22 @@ impl Server {
         
         // Execute as EVAL, in the database the connection has selected
         crate::storage::commands::lua::handle_eval_with_db(&self.storage, &eval_parts, db)
+    }
+    
+    /// The EVAL command an EVALSHA amounts to: the cached script in place of its hash
+    /// (None if the hash names no cached script)
+    fn evalsha_as_eval(&self, parts: &[RespFrame]) -> Option<Vec<RespFrame>> {
+        if parts.len() < 3 {
+            return None;
+        }
+        let sha1 = match &parts[1] {
+            RespFrame::BulkString(Some(bytes)) => std::str::from_utf8(bytes).ok()?,
+            _ => return None,
+        };
+        let script = self.script_cache.get(sha1).ok()??;
+        let mut eval_parts = vec![RespFrame::bulk_string("EVAL"), RespFrame::bulk_string(script)];
+        eval_parts.extend_from_slice(&parts[2..]);
+        Some(eval_parts)
     }
     
     /// redis.call("LPUSH"/"RPUSH", ..) inside a script goes to the storage engine directly and
